@@ -580,60 +580,76 @@ def gen_overwrite_scripts(rng, tier):
 
 
 def gen_split_boundary_scripts(rng, tier):
-    """a full border whose entries around the split point share one 8-byte slice and differ only in length
-    (zero extensions "m\\0" / "m\\0\\0", or an 8-byte key next to the link of longer keys with the same first 8 bytes);
-    the 16th key is inserted at a chosen rank around the split point (7, 8, 9); then every key is looked up, the
-    range is scanned and the tree dumped.  Optionally everything sits below a common 8-byte prefix (layer 1)."""
+    """a full border (15 ENTRIES) whose entries around the split point share one 8-byte slice and differ only in
+    length: zero extensions "m\\0" / "m\\0\\0", and an 8-byte key next to the layer link of longer keys with the same
+    first 8 bytes (one entry, however many long keys).  The 16th entry is inserted at a chosen rank around the split
+    point (7, 8, 9); then every key is looked up, intervals with endpoints at the family keys are scanned (scan and
+    cursor) and the tree is dumped.  Optionally everything sits below a common 8-byte prefix (layer 1)."""
     out = []
-    n_scripts = 24 if tier == "quick" else 150
-    for n in range(n_scripts):
+    n_scripts = 30 if tier == "quick" else 200
+    tries = 0
+    while len(out) < n_scripts and tries < n_scripts * 20:
+        tries += 1
+        n = len(out)
         prefix = b"" if rng.random() < 0.6 else rng.choice([b"prefix88", b"\0" * 8, b"\xff" * 8])
-        fam_kind = rng.choice(["zero", "zero", "link", "link", "both"])
+        fam_kind = rng.choice(["zero", "link", "link", "both"])
         base = bytes([rng.choice([0x6d, 0x01, 0x80])]) + bytes(rng.choice([0, 0x41]) for _ in range(rng.randrange(0, 4)))
-        fam = []
+        b8 = (base + b"\0" * 8)[:8]
+        entries = []          # (order key, [real keys]) ; order key = (padded slice, length or 9 for the link)
         if fam_kind in ("zero", "both"):
-            fam += [base + b"\0" * j for j in range(0, 8 - len(base) + 1)]          # all share the slice, lengths differ
+            for j in range(0, 8 - len(base) + 1):
+                k = base + b"\0" * j
+                entries.append(((k + b"\0" * 8)[:8], len(k), [k]))
         if fam_kind in ("link", "both"):
-            b8 = (base + b"\0" * 8)[:8]
-            fam += [b8, b8 + b"XYZ", b8 + b"\0", b8 + b"\0\0"]
-        fam = sorted(set(fam))
-        if len(fam) < 2:
+            if not any(e[2] == [b8] for e in entries):
+                entries.append((b8, 8, [b8]))
+            longs = rng.sample([b8 + b"XYZ", b8 + b"\0", b8 + b"\0\0", b8 + b"\xff"], rng.choice([1, 1, 2, 3]))
+            entries.append((b8, 9, sorted(longs)))
+        entries.sort(key=lambda e: (e[0], e[1]))
+        if len(entries) < 2:
             continue
-        j = rng.randrange(len(fam) - 1)
+        new_i = rng.randrange(len(entries))
         target_rank = rng.choice([7, 8, 8, 8, 9])
-        new_key = fam[j] if rng.random() < 0.7 else fam[j + 1]
-        others = [k for k in fam if k != new_key]
-        # number of family members below new_key
-        below_f = len([k for k in others if k < new_key])
-        need_below = target_rank - below_f
-        if need_below < 0 or need_below > 12:
+        need_below = target_rank - new_i
+        n_fam_before = len(entries) - 1
+        need_above = 15 - n_fam_before - need_below
+        if need_below < 0 or need_above < 0:
             continue
-        lows = [bytes([0x00 if base[0] > 0x01 else 0x00]) + bytes([i + 1]) for i in range(20)]
-        lows = [k for k in lows if k < min(fam)][:need_below]
-        if len(lows) < need_below:
+        lows = [bytes([0x00, i + 1]) for i in range(need_below)]
+        if lows and max(lows) >= min(e[2][0] for e in entries):
             continue
-        need_above = 15 - len(others) - len(lows)
-        if need_above < 0:
-            others = others[:15 - len(lows)]
-            need_above = 0
-        highs = [bytes([0xfe]) + bytes([i]) for i in range(need_above)]
-        keys15 = lows + others + highs
-        if len(keys15) != 15:
-            continue
-        rng.shuffle(keys15)
+        highs = [bytes([0xfe, i]) for i in range(need_above)]
+        new_e = entries[new_i]
+        old_keys = lows + highs + [k for e in entries if e is not new_e for k in e[2]]
+        rng.shuffle(old_keys)
         ops = ["init", "enter", "create 73"]
         if prefix:
             ops.append("put 73 %s 76 1 0 0" % hx(b"a"))
-        for k in keys15:
+        for k in old_keys:
             ops.append("put 73 %s %s 1 0 0" % (hx(prefix + k), hx(b"v" + k[:3])))
         ops.append("dump 73")
-        ops.append("put 73 %s %s 1 0 0" % (hx(prefix + new_key), hx(b"NEW")))
-        allk = sorted(keys15 + [new_key])
+        for k in new_e[2]:
+            ops.append("put 73 %s %s 1 0 0" % (hx(prefix + k), hx(b"NEW")))
+        allk = sorted(old_keys + new_e[2])
         for k in allk:
             ops.append("get 73 %s" % hx(prefix + k))
         ops.append("scan 73 - INF - INF 0 0")
+        fam_keys = [k for e in entries for k in e[2]]
+        ends = sorted(set(fam_keys + [(k + b"\0" * 8)[:8] for k in fam_keys]))
+        for _ in range(8):
+            a, b = rng.choice(ends), rng.choice(ends)
+            if a > b:
+                a, b = b, a
+            le, re_ = rng.choice(["IN", "IN", "EX"]), rng.choice(["IN", "EX", "INF"])
+            if a == b and not (le == "IN" and re_ in ("IN", "INF")):
+                le, re_ = "IN", ("IN" if re_ != "INF" else "INF")
+            ops.append("scan 73 %s %s %s %s %d 0" % (hx(prefix + a), le, "-" if re_ == "INF" else hx(prefix + b), re_,
+                                                     rng.choice([0, 0, 1, 3])))
+            if rng.random() < 0.5:
+                ops.append("iscan 73 %s %s %s %s %d" % (hx(prefix + a), le, "-" if re_ == "INF" else hx(prefix + b), re_,
+                                                        int(rng.random() < 0.5)))
         ops.append("dump 73")
-        ops.append("put 73 %s %s 1 1 0" % (hx(prefix + new_key), hx(b"DUP")))       # unique insert must fail
+        ops.append("put 73 %s %s 1 1 0" % (hx(prefix + new_e[2][0]), hx(b"DUP")))       # unique insert must fail
         for k in rng.sample(allk, 5):
             ops.append("rem 73 %s" % hx(prefix + k))
         ops.append("scan 73 - INF - INF 0 0")
@@ -642,32 +658,25 @@ def gen_split_boundary_scripts(rng, tier):
     return out
 
 
-def gen_storage_cycle_scripts(rng, tier):
-    """storages created and deleted repeatedly, ending with NO storage left (or all destroyed) before fin()"""
+def gen_failed_ddl_scripts(rng, tier):
+    """more failed storage operations (delete / find / create of unknown or existing names) than there are session
+    slots: each must release what it took, so the operations after them still complete"""
     out = []
-    for n in range(6 if tier == "quick" else 24):
-        ops = ["init", "fin", "init", "enter"]
-        names = [b"s", b"t12345678", b"t123456789", b""][:rng.choice([1, 2, 4])]
-        for rnd in range(rng.choice([1, 2, 3])):
-            for nm in names:
-                ops.append("create " + hx(nm))
-                for i in range(rng.choice([0, 1, 20])):
-                    ops.append("put %s %s %s 8 0 0" % (hx(nm), hx(bytes([0x41 + i % 26, i])), hx(b"v")))
-            if rng.random() < 0.3:
-                ops.append("list")
-            order = list(names)
-            rng.shuffle(order)
-            for nm in order:
-                ops.append("dropst " + hx(nm))
-            if rng.random() < 0.5:
-                ops.append("list")
-        end = rng.random()
-        if end < 0.3:
-            ops.append("destroy")
-        elif end < 0.5:
-            ops += ["create 73", "destroy"]
-        ops += ["leave", "fin"]
-        out.append(("stcycle%d" % n, ops))
+    for n in range(3 if tier == "quick" else 10):
+        ops = ["init", "enter", "create 73"]
+        m = rng.choice([9, 12, 20])
+        for i in range(m):
+            r = rng.random()
+            if r < 0.5:
+                ops.append("dropst %s" % hx(b"nosuch%d" % i))
+            elif r < 0.7:
+                ops.append("create 73")
+            elif r < 0.85:
+                ops.append("find %s" % hx(b"nosuch%d" % i))
+            else:
+                ops.append("put %s 61 62 1 0 0" % hx(b"nosuch%d" % i))
+        ops += ["create 74", "put 74 61 62 1 0 0", "get 74 61", "dropst 74", "list", "leave", "enter", "get 73 61", "leave", "fin"]
+        out.append(("ddl%d" % n, ops))
     return out
 
 
